@@ -26,32 +26,57 @@ import (
 // its caller's scope.
 
 type c09Node struct {
-	T     string      // let | probe | for | fndef | call | partial | cfdef | cfcall | cof | blk | if
-	Name  string      // let/probe: variable; fndef/call: function; partial: partial name; cf*: content name
-	Val   string      // let: value; call: argument value ("" = no parameter)
-	ID    int         // probe id
-	K, V  string      // for: loop variables (K may be "")
-	P     string      // fndef: parameter ("" = none)
-	Elems []string    // for
-	Data  [][2]string // partial/cfcall/cof/blk: name, value pairs
+	T     string     // let | probe | for | fndef | call | partial | cfdef | cfcall | cof | blk | if
+	Name  string     // let/probe: variable; fndef/call: function; partial: partial name; cf*: content name
+	A     c09Arg     // let: right-hand side
+	Args  []c09Arg   // call: one argument per parameter of the function
+	ID    int        // probe id
+	K, V  string     // for: loop variables (K may be "")
+	Ps    []string   // fndef: parameters (0..3 distinct names)
+	Elems []c09Arg   // for
+	Data  []c09Datum // partial/cfcall/cof/blk: name, value pairs
 	Body  []*c09Node
 	Label string // probe: where it sits (after-<construct> | in-<construct> | top)
+}
+
+// c09Arg: an expression in an operand position (call argument, let right-hand side, hash value, array
+// element): a string literal, a read of a variable, or a call of a user function (whose body probes).
+type c09Arg struct {
+	Lit  string
+	Var  string
+	RID  int      // Var: id of this read (decides how it is printed, see c09Printer.arg)
+	Call *c09Node // T == "call"
+}
+
+type c09Datum struct {
+	K string
+	A c09Arg
 }
 
 // ---- reference interpreter (environment chain)
 
 type c09Env struct {
-	vars  map[string]string
-	outer *c09Env
+	vars    map[string]string // "-" = bound to nil; "*" = bound to a value the oracle does not predict (a call's value)
+	fromVar map[string]bool   // parameters whose argument was a variable read
+	outer   *c09Env
 }
 
-func c09Child(e *c09Env) *c09Env { return &c09Env{vars: map[string]string{}, outer: e} }
+func c09Child(e *c09Env) *c09Env {
+	return &c09Env{vars: map[string]string{}, fromVar: map[string]bool{}, outer: e}
+}
+
+func (e *c09Env) lookup(n string) (*c09Env, bool) {
+	for ; e != nil; e = e.outer {
+		if _, ok := e.vars[n]; ok {
+			return e, true
+		}
+	}
+	return nil, false
+}
 
 func (e *c09Env) get(n string) (string, bool) {
-	for ; e != nil; e = e.outer {
-		if v, ok := e.vars[n]; ok {
-			return v, true
-		}
+	if f, ok := e.lookup(n); ok {
+		return f.vars[n], true
 	}
 	return "", false
 }
@@ -59,6 +84,7 @@ func (e *c09Env) get(n string) (string, bool) {
 type c09Obs struct {
 	ID  int
 	Val string // "-" = unbound
+	Dyn string // where the probe ran / what it looked at, beyond its static label
 }
 
 type c09Closure struct {
@@ -70,12 +96,62 @@ type c09Machine struct {
 	iterFresh, fnLexical, cfLexical bool
 	defs                            map[string]c09Closure
 	log                             []c09Obs
+	argDepth                        int          // > 0 while the arguments of a call are being evaluated
+	unsafe                          map[int]bool // variable reads (RID) that met an unbound / nil / unpredicted value
 }
 
-func (m *c09Machine) withData(e *c09Env, data [][2]string) *c09Env {
+// eval: every operand is evaluated in the scope where it is written.
+func (m *c09Machine) eval(a c09Arg, env *c09Env) string {
+	switch {
+	case a.Call != nil:
+		m.call(a.Call, env)
+		return "*" // the value of a call is C16's business
+	case a.Var != "":
+		v, ok := env.get(a.Var)
+		if !ok {
+			v = "-"
+		}
+		if v == "-" || v == "*" {
+			m.unsafe[a.RID] = true
+		}
+		return v
+	}
+	return a.Lit
+}
+
+// call: all arguments are evaluated in the caller's scope (left to right, nested calls run there too),
+// then the parameters are bound in a fresh scope and the body runs.
+func (m *c09Machine) call(n *c09Node, env *c09Env) {
+	d := m.defs[n.Name]
+	vals := make([]string, len(n.Args))
+	m.argDepth++
+	for i, a := range n.Args {
+		vals[i] = m.eval(a, env)
+	}
+	m.argDepth--
+	base := env
+	if m.fnLexical {
+		base = d.env
+	}
+	c := c09Child(base)
+	for i, p := range d.n.Ps {
+		c.vars[p] = vals[i]
+		if n.Args[i].Var != "" {
+			c.fromVar[p] = true
+		}
+	}
+	m.run(d.n.Body, c)
+}
+
+// withData: the values are evaluated where the hash is written (in), the names are bound in a child of e.
+func (m *c09Machine) withData(e *c09Env, data []c09Datum, in *c09Env) *c09Env {
+	vals := make([]string, len(data))
+	for i, d := range data {
+		vals[i] = m.eval(d.A, in)
+	}
 	c := c09Child(e)
-	for _, d := range data {
-		c.vars[d[0]] = d[1]
+	for i, d := range data {
+		c.vars[d.K] = vals[i]
 	}
 	return c
 }
@@ -84,18 +160,28 @@ func (m *c09Machine) run(ns []*c09Node, env *c09Env) {
 	for _, n := range ns {
 		switch n.T {
 		case "let":
-			env.vars[n.Name] = n.Val
+			env.vars[n.Name] = m.eval(n.A, env)
 		case "probe":
-			v, ok := env.get(n.Name)
-			if !ok {
-				v = "-"
+			v, dyn := "-", []string{}
+			if f, ok := env.lookup(n.Name); ok {
+				v = f.vars[n.Name]
+				if f.fromVar[n.Name] {
+					dyn = append(dyn, "param-from-var")
+				}
 			}
-			m.log = append(m.log, c09Obs{n.ID, v})
+			if m.argDepth > 0 {
+				dyn = append(dyn, "during-args")
+			}
+			m.log = append(m.log, c09Obs{n.ID, v, strings.Join(dyn, "+")})
 		case "if":
 			m.run(n.Body, env) // not a scope; the generator puts no let directly inside
 		case "for":
+			elems := make([]string, len(n.Elems))
+			for i, e := range n.Elems { // the collection is evaluated once, outside the loop's scope
+				elems[i] = m.eval(e, env)
+			}
 			c := c09Child(env)
-			for i, e := range n.Elems {
+			for i, e := range elems {
 				if m.iterFresh {
 					c = c09Child(env)
 				}
@@ -108,44 +194,51 @@ func (m *c09Machine) run(ns []*c09Node, env *c09Env) {
 		case "fndef", "cfdef":
 			m.defs[n.Name] = c09Closure{n, env}
 		case "call":
-			d := m.defs[n.Name]
-			base := env
-			if m.fnLexical {
-				base = d.env
-			}
-			c := c09Child(base)
-			if d.n.P != "" {
-				c.vars[d.n.P] = n.Val
-			}
-			m.run(d.n.Body, c)
+			m.call(n, env)
 		case "cfcall":
 			d := m.defs[n.Name]
 			base := env
 			if m.cfLexical {
 				base = d.env
 			}
-			m.run(d.n.Body, m.withData(base, n.Data))
+			m.run(d.n.Body, m.withData(base, n.Data, env))
 		case "partial", "cof", "blk":
-			m.run(n.Body, m.withData(env, n.Data))
+			m.run(n.Body, m.withData(env, n.Data, env))
 		}
 	}
 }
 
-// c09Predict: per executed probe, the set of admissible observations.
-func c09Predict(prog []*c09Node) (ids []int, allowed [][]string) {
-	var sets []map[string]bool
+// c09Predict: per executed probe, the set of admissible observations ("*" = any) and its dynamic label;
+// unsafe: the variable reads that cannot be written as a bare identifier (see c09Printer.arg).
+func c09Predict(prog []*c09Node) (ids []int, allowed [][]string, dyn []string, unsafe map[int]bool) {
+	var sets, dyns []map[string]bool
+	unsafe = map[int]bool{}
 	for mode := 0; mode < 8; mode++ {
-		m := &c09Machine{iterFresh: mode&1 != 0, fnLexical: mode&2 != 0, cfLexical: mode&4 != 0, defs: map[string]c09Closure{}}
+		m := &c09Machine{iterFresh: mode&1 != 0, fnLexical: mode&2 != 0, cfLexical: mode&4 != 0, defs: map[string]c09Closure{}, unsafe: unsafe}
 		m.run(prog, c09Child(nil))
 		if mode == 0 {
 			for _, o := range m.log {
 				ids = append(ids, o.ID)
 				sets = append(sets, map[string]bool{})
+				dyns = append(dyns, map[string]bool{})
 			}
 		}
 		for i, o := range m.log {
 			sets[i][o.Val] = true
+			for _, d := range strings.Split(o.Dyn, "+") {
+				if d != "" {
+					dyns[i][d] = true
+				}
+			}
 		}
+	}
+	for _, s := range dyns {
+		l := []string{}
+		for k := range s {
+			l = append(l, k)
+		}
+		sort.Strings(l)
+		dyn = append(dyn, strings.Join(l, "+"))
 	}
 	for _, s := range sets {
 		l := []string{}
@@ -163,9 +256,10 @@ func c09Predict(prog []*c09Node) (ids []int, allowed [][]string) {
 type c09Expect struct {
 	ID    int      `json:"id"`
 	Name  string   `json:"n"`
-	Want  []string `json:"w"`           // admissible observations; "-" = unbound
+	Want  []string `json:"w"`           // admissible observations; "-" = unbound; "*" = any
 	Text  bool     `json:"t,omitempty"` // also observed through the output
 	Label string   `json:"l"`
+	Dyn   string   `json:"d,omitempty"` // during-args: ran while a call's arguments were evaluated; param-from-var: looks at a parameter whose argument was a variable read
 }
 
 type c09Case struct {
@@ -173,6 +267,7 @@ type c09Case struct {
 	Partials map[string]string `json:"partials,omitempty"`
 	Seq      []c09Expect       `json:"seq"` // probes in execution order
 	Shape    string            `json:"shape"`
+	Feat     []string          `json:"feat,omitempty"` // operand forms present (distribution tags only)
 }
 
 func c09JSON(v interface{}) string {
@@ -199,7 +294,7 @@ var c09TextProbe = regexp.MustCompile(`\[(\d+):(true|false)(?::([A-Za-z0-9]*))?\
 
 func c09In(xs []string, x string) bool {
 	for _, y := range xs {
-		if x == y {
+		if x == y || y == "*" {
 			return true
 		}
 	}
@@ -216,7 +311,11 @@ func c09Mismatch(e c09Expect, got string) (string, string) {
 	case strings.HasPrefix(e.Label, "after-"):
 		typ = "clobber" // an outer variable changed under a construct that ended
 	}
-	return typ + ":" + e.Label, fmt.Sprintf("probe %d of %q (%s): expected %s, observed %q", e.ID, e.Name, e.Label, strings.Join(e.Want, " or "), got)
+	lab := e.Label
+	if e.Dyn != "" {
+		lab += "+" + e.Dyn
+	}
+	return typ + ":" + lab, fmt.Sprintf("probe %d of %q (%s): expected %s, observed %q", e.ID, e.Name, lab, strings.Join(e.Want, " or "), got)
 }
 
 func c09Eval(cs *c09Case) (v c09Verdict) {
@@ -243,6 +342,9 @@ func c09Eval(cs *c09Case) (v c09Verdict) {
 			log = append(log, rec{id, name, val})
 			mu.Unlock()
 			return ""
+		},
+		"c09v": func(name string, help plush.HelperContext) interface{} { // reads a name that may be unbound / nil
+			return help.Value(name)
 		},
 		"c09with": func(data map[string]interface{}, help plush.HelperContext) (template.HTML, error) {
 			c := help.New()
@@ -332,6 +434,9 @@ func c09Record(rep *Report, cs *c09Case, v c09Verdict) {
 	rep.Count(text, len(cs.Seq) > 0 && cs.Shape != "flat")
 	rep.Tag("shape:" + cs.Shape)
 	rep.Tag("probes:" + strconv.Itoa((len(cs.Seq)+4)/5*5))
+	for _, f := range cs.Feat {
+		rep.Tag("has:" + f)
+	}
 	for _, t := range v.Tags {
 		rep.Tag(t)
 	}
@@ -345,9 +450,10 @@ func c09Record(rep *Report, cs *c09Case, v c09Verdict) {
 func init() {
 	oracles["C09"] = func(cfg Config) []*Report {
 		rep := NewReport("C09", "C09", cfg)
-		rep.Rule = "programs = nestings to depth 3 of {for, user function definition+call, partial (partialFeeder), contentFor+contentOf with data, contentOf with own block and data, block helper using BlockWith(own context), transparent if} over the names x,y,z with let / shadowing let / loop variables, parameters and data keys drawn from the same names, and a probe before, inside (first and last) and after every construct; each probe observes a name through a helper's HelperContext and, outside function bodies, through the output (<%= x == nil %>, <%= x %>); prediction by an environment-chain interpreter run in all 8 readings of what the property leaves open (scope per loop vs per iteration; function and contentFor bodies resolved in the defining vs the calling scope), union accepted per probe. Every case reaches >= 1 scoped construct except shape=flat (top-level let persistence, ~3%); non-trivial = has a scoped construct; distinct by case text"
+		rep.Rule = "programs = nestings to depth 3 of {for, user function definition+call, partial (partialFeeder), contentFor+contentOf with data, contentOf with own block and data, block helper using BlockWith(own context), transparent if} over the names x,y,z with let / shadowing let / loop variables, 0-3 parameters per function and data keys drawn from the same names; every operand position (call argument, let right-hand side, hash value of partial/contentOf/block-helper data, element of a loop's array) holds a literal, a read of one of the names (steered towards names the receiving construct binds itself and that are bound at the call site: f(y, x) for fn(x, y), {x: y, y: x}, let x = x, for (x) in [x]) or - arguments and let - a call of a user function whose body probes, nested up to 2 deep; operands are predicted in the scope where they are written (arguments left to right in the caller's scope before any parameter is bound); a read is written as the bare identifier when the reference says it is bound to a known non-nil value in every reading, else through the helper c09v (plush rejects unbound/nil identifiers: not this property); and a probe before, inside (first and last) and after every construct; each probe observes a name through a helper's HelperContext and, outside function bodies, through the output (<%= x == nil %>, <%= x %>); prediction by an environment-chain interpreter run in all 8 readings of what the property leaves open (scope per loop vs per iteration; function and contentFor bodies resolved in the defining vs the calling scope), union accepted per probe. Every case reaches >= 1 scoped construct except shape=flat (top-level let persistence, ~3%); non-trivial = has a scoped construct; distinct by case text"
 		rep.Notes = append(rep.Notes,
 			"not checked (left open by the statement): assignment (x = …) inside a construct; let directly inside an if block (if is not a scope); block helpers using help.Block(); whether a let in a loop body is visible to the next iteration; lexical vs dynamic resolution of a function's free variables",
+			"the value of a user-function call is never predicted (a name bound to it accepts any observation); probes that ran while a call's arguments were being evaluated, or that look at a parameter whose argument was a variable read, carry +during-args / +param-from-var in the failure site",
 			"function bodies are written across tags without return and observed only through the helper probe, so the oracle does not depend on what a call's value is (C16)")
 		if cfg.Arg != "" {
 			var cs c09Case
